@@ -90,6 +90,8 @@ class H5DataSet:
         return data
 
     def set_attr(self, name, value):
+        # check first: h5py removes the old attribute before it fails on text with a NUL
+        util.check_no_nul(value)
         if value is None:
             if name in self.dataset.attrs:
                 del self.dataset.attrs[name]
